@@ -153,6 +153,11 @@ def run_case(case):
         # filled is unfilled (NaN leaves), and writing into it leaves the filled one alone
         import copy as _copy
 
+        for fn_, ps_ in params.items():  # now fill the object that was really returned
+            if isinstance(ps_, dict) and fn_ != "shocks" and isinstance(tmpl.get(fn_), dict):
+                for k_, v_ in ps_.items():
+                    tmpl[fn_][k_] = v_
+        filled = tmpl
         snap = _copy.deepcopy({k: (dict(v) if isinstance(v, dict) and k != "shocks" else None) for k, v in filled.items() if k != "shocks"})
         _, tmpl3 = pipeline.get_lcm_function(model, "solve")
         add("templates_of_later_builds_checked")
